@@ -1340,6 +1340,47 @@ def _simple_shared(rng):
             lambda p: fg.shared_ref_text(p, a) + "+" + fg.shared_ref_text(p, b))
 
 
+def run_xls_nested_corpus(ctx):
+    """corpus witness of the former defect XLS-2 (notes/AUDIT2.md 3.2) on the formula side: B2:B4 share =A2*2 (first
+    cell B2 with its SHRFMLA, members B3, B4); between B2 and B3 an embedded chart whose substream holds a FORMULA
+    record at B2 (=9), a SHRFMLA record (=8) that would replace the group's expression, and an ARRAY record; then a
+    plain formula =7 at C9 behind a second (empty) nested substream.  Before the repair the sheet ended at the
+    chart's EOF: B3, B4, C9 were lost and B2 read 9."""
+    from props import c14_xlsfile as xf
+    bofc = struct.pack("<HHHHII", 0x0600, 0x0020, 0x0DBB, 0x07CC, 0, 0x0306)
+    rgce = bytes([0x4C, 0x00, 0x00, 0xFF, 0xC0, 0x1E, 0x02, 0x00, 0x05])          # PtgRefN (row +0, col -1) 2 *
+    shr = (0x04BC, fg.shrfmla_record_payload(1, 3, 1, 1, rgce))
+    chart = [(0x0809, bofc), (0x1001, b"\0\0"), (0x0200, struct.pack("<IIHHH", 0, 2, 0, 2, 0)),
+             (0x0203, struct.pack("<HHHd", 1, 1, 0, 5.0)),
+             (0x0006, fg.xls_formula_payload(1, 1, bytes.fromhex("03001e0900"))),
+             (0x04BC, fg.shrfmla_record_payload(1, 3, 1, 1, b"\x1e\x08\x00")),
+             (0x0221, fg.array_record_payload(1, 1, 1, 1, b"\x1e\x06\x00")), (0x000A, b"")]
+    empty = [(0x0809, b""), (0x000A, b"")]
+    raw = lambda rs: b"".join(xf.rec(t, b) for t, b in rs)
+    fl = [(1, 1, fg.ptgexp_cpf(1, 1), raw([shr])), (1, 255, None, raw(chart)), (2, 1, fg.ptgexp_cpf(1, 1)),
+          (3, 1, fg.ptgexp_cpf(1, 1)), (3, 255, None, raw(empty)), (8, 2, bytes.fromhex("03001e0700"))]
+    recs = [(0x0809, struct.pack("<HHHHII", 0x0600, 0x0010, 0x0DBB, 0x07CC, 0, 0x0306)),
+            (0x0006, fg.xls_formula_payload(1, 1, fg.ptgexp_cpf(1, 1))), shr] + chart + \
+           [(0x0006, fg.xls_formula_payload(2, 1, fg.ptgexp_cpf(1, 1))), (0x0006, fg.xls_formula_payload(3, 1, fg.ptgexp_cpf(1, 1)))] + \
+           empty + [(0x0006, fg.xls_formula_payload(8, 2, bytes.fromhex("03001e0700"))), (0x000A, b"")]
+    want = fg.expected_range([(1, 1, "A2*2"), (2, 1, "A3*2"), (3, 1, "A4*2"), (8, 2, "7")], keep_empty=True)
+    path = _write("corpus_nested_chart.xls", xf.cfb_write([("Workbook", xf.workbook_stream(["S1"], [], [], [fl]))]))
+    line = "xnc\topen\txls\t%s\tformula %s" % (path, hx("S1"))
+    impl = ctx.run_impl([line])
+    mod = ctx.run_model(["xnc_m\tfsheet\txls\t%s\t-\t-\t%s" % (hx("S1"), _recs_arg(recs))])
+    got, m = impl.get("xnc"), mod.get("xnc_m")
+    ctx.traces += 1
+    ctx.count("xls:file:corpus:nested-chart-substream")
+    if got != m:
+        ctx.disagreements.append({"function": "xls worksheet_formula (corpus nested chart vs FormulaSheet model)", "case": line, "impl": got, "model": m})
+    if got != want:
+        ctx.violations.append({"case": line, "expected": want, "actual": got, "model": m,
+                               "what": "xls sheet with an embedded chart substream between the cells of a shared formula: the chart's "
+                                       "FORMULA / SHRFMLA / ARRAY records are not the sheet's, and the sheet goes on behind the chart's EOF"})
+    else:
+        ctx.nontrivial("xls:nested-corpus")
+
+
 def run_xls_shared_files(ctx, n, argc):
     """.xls sheets with shared groups (column, row, block; first cell = top-left; relative, absolute and
     mixed PtgRefN / PtgAreaN, offsets that wrap around the sheet) and array groups, between plain formula
@@ -1478,8 +1519,43 @@ def run_xls_shared_files(ctx, n, argc):
                 numrec = struct.pack("<HHHd", entries[0][0][0], 255, 0, 1.5)
                 entries.insert(rng.randrange(1, len(entries) + 1),
                                ((entries[0][0][0], 255, None, xf.rec(0x0203, numrec)), [(0x0203, numrec)]))
+            if entries and rng.random() < 0.45:
+                # substreams nested in the sheet ([MS-XLS] 2.1.7.20.5 OBJECTS: the chart substream BOF ... EOF of an
+                # embedded chart object), anywhere between the formula cells - also between the first cell of a
+                # group and its members.  Besides the chart's series cache they hold FORMULA / SHRFMLA / ARRAY
+                # records at cells of the sheet's own formulas and groups (a reader that takes them for the sheet's
+                # replaces the group's expression or adds cells) and sometimes a further BOF ... EOF pair.
+                import xlsgen
+                ps = sorted(cellrecs)
+                for _ in range(rng.choice([1, 1, 2])):
+                    sub = xlsgen.chart_sub(rng, ps, exotic=0.6)
+                    srecs = []
+                    for t_, b_, conts_ in sub["recs"]:
+                        srecs.append((t_, b_))
+                        srecs += [(0x003C, c_) for c_ in conts_]
+                    for _ in range(rng.choice([0, 1, 1, 2])):
+                        q = rng.choice(ps)
+                        at = rng.randrange(len(srecs) + 1)
+                        kind_ = rng.choice(["formula", "shared", "array", "shrfmla-only"])
+                        ins = []
+                        if kind_ != "shrfmla-only":
+                            ins.append((0x0006, fg.xls_formula_payload(q[0], q[1], bytes.fromhex("03001e0900") if kind_ == "formula" else fg.ptgexp_cpf(*q))))
+                        if kind_ in ("shared", "shrfmla-only"):
+                            ins.append((0x04BC, fg.shrfmla_record_payload(q[0], min(q[0] + 1, 65535), q[1] & 0xFF, q[1] & 0xFF, b"\x1e\x08\x00")))
+                        if kind_ == "array":
+                            ins.append((0x0221, fg.array_record_payload(q[0], q[0], q[1] & 0xFF, q[1] & 0xFF, b"\x1e\x06\x00")))
+                        srecs[at:at] = ins
+                        ctx.count("xls:file:nested-substream:with-%s-record-at-a-formula-cell" % kind_)
+                    full = [(0x0809, sub["bof"])] + srecs + [(0x000A, b"")]
+                    raw = b"".join(xf.rec(t_, b_) for t_, b_ in full)
+                    at = rng.randrange(len(entries) + 1)
+                    entries.insert(at, ((entries[0][0][0], 255, None, raw), full))
+                    ctx.count("xls:file:nested-substream")
+                    if at < len(entries) - 1:
+                        ctx.count("xls:file:nested-substream:before-later-formula-cells")
             fl = [e_[0] for e_ in entries]
-            recs = [r_ for e_ in entries for r_ in e_[1]]
+            # the model reads the substream from its own BOF record on (xls_file.workbook_stream writes this body)
+            recs = [(0x0809, struct.pack("<HHHHII", 0x0600, 0x0010, 0x0DBB, 0x07CC, 0, 0x0306))] + [r_ for e_ in entries for r_ in e_[1]]
             fbs.append(fl)
             recs.append((0x000A, b""))
             per_sheet.append((fg.expected_range(exp, keep_empty=True), recs))
@@ -2140,6 +2216,7 @@ def run_e2e(ctx, argc, factor=1):
             os.remove(os.path.join(E2E_DIR, f))
     mb, ib = run_xlsb_files(ctx, factor * ctx.scale(150, 2000), argc)
     ml, il = run_xls_files2(ctx, factor * ctx.scale(120, 1500), argc)
+    run_xls_nested_corpus(ctx)
     run_xls_shared_files(ctx, factor * ctx.scale(120, 1500), argc)
     run_xlsb_shared_files(ctx, factor * ctx.scale(120, 1500), argc)
     mx, ix = run_xlsx_files(ctx, factor * ctx.scale(150, 2000))
